@@ -123,9 +123,12 @@ class Code15(Code13):
                 co_lnotab += chr(255)
                 co_lnotab += chr(0)
                 offset_diff -= 255
+            # The rest of the offset goes with the first line increment;
+            # otherwise the line would change too early.
             while line_diff >= 256:
-                co_lnotab += chr(0)
+                co_lnotab += chr(offset_diff)
                 co_lnotab += chr(255)
+                offset_diff = 0
                 line_diff -= 255
             co_lnotab += chr(offset_diff)
             co_lnotab += chr(line_diff)
